@@ -231,7 +231,7 @@ func driveAlias(c *hx.Ctx) error {
 		add(&api.LinuxResources{Unified: map[string]string{"k": s}}, "single-unified")
 		add(&api.LinuxResources{Unified: map[string]string{s: "v"}}, "single-unified")
 	}
-	n := c.Pick(250, 6000)
+	n := c.Pick(500, 6000)
 	for i := 0; i < n; i++ {
 		add(genNRIResources(r), "random")
 	}
